@@ -18,12 +18,12 @@ C1 == SetMin(Char)
 C2 == SetMax(Char)
 Pat(k) == [i \in 1..k |-> IF i % 2 = 1 THEN C2 ELSE C1]
 Wholes(maxlen) == {x \in Strs(WholeLen) \cup {Pat(k) : k \in 3..(L + 2)} : Len(x) <= maxlen}
-PartSrcs == {<<>>, <<C1>>, <<C1, C2>>, Pat(L + 1)}
+PartSrcs == IF WildArgs THEN {<<>>, <<C2, C1>>, Pat(L + 1)} ELSE {<<>>, <<C1>>, <<C1, C2>>, Pat(L + 1)}
 Pos1 == IF WildArgs THEN (0..(L + 1)) \cup BigVals ELSE 0..Len(s)           \* positions in this string
-Cnt1 == {0, 1, 2, L + 1} \cup BigVals \cup {NPos}                       \* counts in this string
+Cnt1 == IF WildArgs THEN {0, 1, L + 1} \cup BigVals ELSE {0, 1, 2, L + 1, NPos}   \* counts in this string
 Cnt1Small == {0, 1} \cup BigVals \cup {NPos}
-Pos2(x) == IF WildArgs THEN (0..(Len(x) + 1)) \cup BigVals ELSE 0..Len(x)    \* positions in the source
-Cnt2 == {0, 1, 2, L + 1} \cup {NPos}
+Pos2(x) == IF WildArgs THEN {0, Len(x), Len(x) + 1} \cup BigVals ELSE 0..Len(x)    \* positions in the source
+Cnt2 == IF WildArgs THEN {0, 1, NPos} ELSE {0, 1, 2, L + 1, NPos}
 RepCnt == (0..(L + 1)) \cup (IF WildArgs THEN BigVals ELSE {})
 
 A(op, tk, sk, p1, c1, src, p2, c2, ch) ==
@@ -46,83 +46,84 @@ SrcOf(sk) ==
      [] sk = "selfit" -> {<<sk, <<>>, q[3], q[4], 0>> : q \in Ranges(sk, s)}
      [] OTHER -> {<<sk, <<>>, 0, 0, 0>>}                   \* "none", "mut", "const", "c"
 Srcs(sks) == UNION {SrcOf(k) : k \in sks}
+\* one call: inside the documented domain the specified step, outside it (only when WildArgs) the absorbing state
+Do(a) == /\ act' = a /\ wf' = TRUE
+         /\ IF Dom(s, o, a) THEN Call(a) /\ dead' = FALSE
+            ELSE WildArgs /\ WildCall(a, <<>>, <<>>) /\ dead' = TRUE
 \* calls of one family: target kinds x positions x counts x sources
-Fam(op, tks, p1s, c1s, sks) == {A(op, tk, q[1], p1, c1, q[2], q[3], q[4], q[5]) : tk \in tks, p1 \in p1s, c1 \in c1s, q \in Srcs(sks)}
+Fam(op, tks, p1s, c1s, sks) == \E tk \in tks, p1 \in p1s, c1 \in c1s, q \in Srcs(sks) : Do(A(op, tk, q[1], p1, c1, q[2], q[3], q[4], q[5]))
 
 WholeSk == {"cstr", "str", "fs", "fs2"}
 PartSk == {"str_pos_cnt", "str_pos", "fs_pos_cnt", "fs_pos", "fs2_pos_cnt", "fs2_pos"}
 ItPos == IF WildArgs THEN 0..(L + 1) ELSE 0..Len(s)          \* an iterator built as begin() += p (p >= length gives end())
 IdxLegal == 0..Len(s)                                     \* operator[] / iterator[]: undefined behaviour beyond (documented)
 
-Calls ==
-   Fam("assign", {"assign", "op_eq"}, {0}, {0}, WholeSk)
-   \cup Fam("assign", {"ctor"}, {0}, {0}, WholeSk \cup {"fs_move"})
-   \cup Fam("clear", {"none"}, {0}, {0}, {"none"})
-   \cup Fam("insert", {"idx"}, Pos1, {0}, WholeSk \cup PartSk \cup {"cnt_ch", "cstr_cnt"})
-   \cup Fam("insert", {"it"}, ItPos, {0}, {"ch", "cnt_ch", "ilist"})
-   \cup Fam("erase", {"idx_cnt"}, Pos1, Cnt1, {"none"})
-   \cup Fam("erase", {"idx"}, Pos1, {NPos}, {"none"})
-   \cup Fam("erase", {"noargs"}, {0}, {NPos}, {"none"})
-   \cup Fam("erase", {"it"}, ItPos, {1}, {"none"})
-   \cup Fam("erase", {"it_it"}, ItPos, 0..(L + 1), {"none"})
-   \cup Fam("push_back", {"none"}, {0}, {0}, {"ch"})
-   \cup Fam("pop_back", {"none"}, {0}, {0}, {"none"})
-   \cup Fam("append", {"app"}, {0}, {0}, WholeSk \cup PartSk \cup {"cnt_ch", "cstr_cnt", "fsit", "selfit"})
-   \cup Fam("append", {"pe"}, {0}, {0}, WholeSk \cup {"ch"})
-   \cup Fam("sprintf", {"fmt"}, 0..3, {0}, {"str"})
-   \cup Fam("replace", {"pos_cnt"}, Pos1, Cnt1, WholeSk \cup {"cnt_ch", "cstr_cnt"})
-   \cup Fam("replace", {"pos_cnt"}, Pos1, Cnt1Small, PartSk)
+\* every call of every family (a disjunction of existential quantifiers: no set of all calls is built)
+AllCalls ==
+   \/ Fam("assign", {"assign", "op_eq"}, {0}, {0}, WholeSk)
+   \/ Fam("assign", {"ctor"}, {0}, {0}, WholeSk \cup {"fs_move"})
+   \/ Fam("clear", {"none"}, {0}, {0}, {"none"})
+   \/ Fam("insert", {"idx"}, Pos1, {0}, WholeSk \cup PartSk \cup {"cnt_ch", "cstr_cnt"})
+   \/ Fam("insert", {"it"}, ItPos, {0}, {"ch", "cnt_ch", "ilist"})
+   \/ Fam("erase", {"idx_cnt"}, Pos1, Cnt1, {"none"})
+   \/ Fam("erase", {"idx"}, Pos1, {NPos}, {"none"})
+   \/ Fam("erase", {"noargs"}, {0}, {NPos}, {"none"})
+   \/ Fam("erase", {"it"}, ItPos, {1}, {"none"})
+   \/ Fam("erase", {"it_it"}, ItPos, 0..(L + 1), {"none"})
+   \/ Fam("push_back", {"none"}, {0}, {0}, {"ch"})
+   \/ Fam("pop_back", {"none"}, {0}, {0}, {"none"})
+   \/ Fam("append", {"app"}, {0}, {0}, WholeSk \cup PartSk \cup {"cnt_ch", "cstr_cnt", "fsit", "selfit"})
+   \/ Fam("append", {"pe"}, {0}, {0}, WholeSk \cup {"ch"})
+   \/ Fam("sprintf", {"fmt"}, 0..3, {0}, {"str"})
+   \/ Fam("replace", {"pos_cnt"}, Pos1, Cnt1, WholeSk \cup {"cnt_ch", "cstr_cnt"})
+   \/ Fam("replace", {"pos_cnt"}, Pos1, Cnt1Small, PartSk)
    \* (iterators into the string itself as replacement are not generated: aliasing is not documented)
-   \cup Fam("replace", {"it_it"}, ItPos, 0..(L + 1), {"fsit", "strit", "cstr_cnt", "cstr", "cnt_ch", "ilist"})
-   \cup Fam("swap", {"other"}, {0}, {0}, {"fs"})
-   \cup Fam("swap", {"self"}, {0}, {0}, {"none"})
-   \cup Fam("set", {"at", "idx", "it", "rit"}, IdxLegal \ {Len(s)}, {0}, {"ch"})
-   \cup Fam("set", {"front", "back"}, IF Len(s) > 0 THEN {0} ELSE {}, {0}, {"ch"})
-   \cup Fam("substr", {"pos_cnt"}, Pos1, Cnt1, {"none"})
-   \cup Fam("substr", {"pos"}, Pos1, {NPos}, {"none"})
-   \cup Fam("copy", {"cnt_pos"}, Pos1, Cnt1, {"none"})
-   \cup Fam("copy", {"cnt"}, {0}, Cnt1, {"none"})
-   \cup Fam("find", {"pos"}, Pos1, {0}, {"fs", "str", "cstr", "cstr_cnt", "ch"})
-   \cup Fam("find_first_of", {"pos"}, Pos1, {0}, {"fs", "str", "cstr", "cstr_cnt", "ch"})
-   \cup Fam("find_first_not_of", {"pos"}, Pos1, {0}, {"fs", "str", "cstr", "cstr_cnt", "ch"})
-   \cup Fam("find", {"nopos"}, {0}, {0}, {"fs", "str", "cstr", "ch"})
-   \cup Fam("find_first_of", {"nopos"}, {0}, {0}, {"fs", "str", "cstr", "ch"})
-   \cup Fam("find_first_not_of", {"nopos"}, {0}, {0}, {"fs", "str", "cstr", "ch"})
-   \cup Fam("rfind", {"pos"}, Pos1 \cup {NPos}, {0}, {"fs", "str", "cstr", "cstr_cnt", "ch"})
-   \cup Fam("find_last_of", {"pos"}, Pos1 \cup {NPos}, {0}, {"fs", "str", "cstr", "cstr_cnt", "ch"})
-   \cup Fam("find_last_not_of", {"pos"}, Pos1 \cup {NPos}, {0}, {"fs", "str", "cstr", "cstr_cnt", "ch"})
-   \cup Fam("rfind", {"nopos"}, {NPos}, {0}, {"fs", "str", "cstr", "ch"})
-   \cup Fam("find_last_of", {"nopos"}, {NPos}, {0}, {"fs", "str", "cstr", "ch"})
-   \cup Fam("find_last_not_of", {"nopos"}, {NPos}, {0}, {"fs", "str", "cstr", "ch"})
-   \cup Fam("compare", {"whole"}, {0}, {NPos}, WholeSk)
-   \cup Fam("compare", {"pos_cnt"}, Pos1, Cnt1, WholeSk \cup {"cstr_cnt"})
-   \cup Fam("compare", {"pos_cnt"}, Pos1, Cnt1Small, {"fs_pos_cnt", "fs2_pos_cnt", "str_pos_cnt"})
-   \cup Fam("starts_with", {"none"}, {0}, {0}, WholeSk \cup {"ch"})
-   \cup Fam("ends_with", {"none"}, {0}, {0}, WholeSk \cup {"ch"})
-   \cup Fam("contains", {"none"}, {0}, {0}, WholeSk \cup {"ch"})
-   \cup Fam("rel", {"eq", "ne"}, {0}, {0}, {"fs", "fs2"})
-   \cup Fam("obs", {"str", "c_str", "data", "length", "empty", "ostream"}, {0}, {0}, {"none"})
-   \cup Fam("get", {"at"}, Pos1 \cup {L + 2}, {0}, {"mut", "const"})
-   \cup Fam("get", {"idx"}, IdxLegal, {0}, {"mut", "const"})
-   \cup Fam("get", {"front", "back"}, {0}, {0}, {"mut", "const"})
-   \cup Fam("iter", {"fwd", "fwd_post", "rev", "rev_post", "dist", "rdist"}, {0}, {0}, {"mut", "const", "c"})
-   \cup Fam("iter", {"deref", "rderef", "back_from"}, IdxLegal \ {Len(s)}, {0}, {"mut", "const", "c"})
-   \cup {A("iter", tk, "const", p, c, <<>>, 0, 0, 0) : tk \in {"diff"}, p \in 0..(Len(s) - 1), c \in 0..(Len(s) - 1)}
-   \cup {A("iter", "index", "mut", p, c, <<>>, 0, 0, 0) : p \in 0..(Len(s) - 1), c \in 0..(Len(s) - 1)}
+   \/ Fam("replace", {"it_it"}, ItPos, 0..(L + 1), {"fsit", "strit", "cstr_cnt", "cstr", "cnt_ch", "ilist"})
+   \/ Fam("swap", {"other"}, {0}, {0}, {"fs"})
+   \/ Fam("swap", {"self"}, {0}, {0}, {"none"})
+   \/ Fam("set", {"at", "idx", "it", "rit"}, IdxLegal \ {Len(s)}, {0}, {"ch"})
+   \/ Fam("set", {"front", "back"}, IF Len(s) > 0 THEN {0} ELSE {}, {0}, {"ch"})
+   \/ Fam("substr", {"pos_cnt"}, Pos1, Cnt1, {"none"})
+   \/ Fam("substr", {"pos"}, Pos1, {NPos}, {"none"})
+   \/ Fam("copy", {"cnt_pos"}, Pos1, Cnt1, {"none"})
+   \/ Fam("copy", {"cnt"}, {0}, Cnt1, {"none"})
+   \/ Fam("find", {"pos"}, Pos1, {0}, {"fs", "str", "cstr", "cstr_cnt", "ch"})
+   \/ Fam("find_first_of", {"pos"}, Pos1, {0}, {"fs", "str", "cstr", "cstr_cnt", "ch"})
+   \/ Fam("find_first_not_of", {"pos"}, Pos1, {0}, {"fs", "str", "cstr", "cstr_cnt", "ch"})
+   \/ Fam("find", {"nopos"}, {0}, {0}, {"fs", "str", "cstr", "ch"})
+   \/ Fam("find_first_of", {"nopos"}, {0}, {0}, {"fs", "str", "cstr", "ch"})
+   \/ Fam("find_first_not_of", {"nopos"}, {0}, {0}, {"fs", "str", "cstr", "ch"})
+   \/ Fam("rfind", {"pos"}, Pos1 \cup {NPos}, {0}, {"fs", "str", "cstr", "cstr_cnt", "ch"})
+   \/ Fam("find_last_of", {"pos"}, Pos1 \cup {NPos}, {0}, {"fs", "str", "cstr", "cstr_cnt", "ch"})
+   \/ Fam("find_last_not_of", {"pos"}, Pos1 \cup {NPos}, {0}, {"fs", "str", "cstr", "cstr_cnt", "ch"})
+   \/ Fam("rfind", {"nopos"}, {NPos}, {0}, {"fs", "str", "cstr", "ch"})
+   \/ Fam("find_last_of", {"nopos"}, {NPos}, {0}, {"fs", "str", "cstr", "ch"})
+   \/ Fam("find_last_not_of", {"nopos"}, {NPos}, {0}, {"fs", "str", "cstr", "ch"})
+   \/ Fam("compare", {"whole"}, {0}, {NPos}, WholeSk)
+   \/ Fam("compare", {"pos_cnt"}, Pos1, Cnt1, WholeSk \cup {"cstr_cnt"})
+   \/ Fam("compare", {"pos_cnt"}, Pos1, Cnt1Small, {"fs_pos_cnt", "fs2_pos_cnt", "str_pos_cnt"})
+   \/ Fam("starts_with", {"none"}, {0}, {0}, WholeSk \cup {"ch"})
+   \/ Fam("ends_with", {"none"}, {0}, {0}, WholeSk \cup {"ch"})
+   \/ Fam("contains", {"none"}, {0}, {0}, WholeSk \cup {"ch"})
+   \/ Fam("rel", {"eq", "ne"}, {0}, {0}, {"fs", "fs2"})
+   \/ Fam("obs", {"str", "c_str", "data", "length", "empty", "ostream"}, {0}, {0}, {"none"})
+   \/ Fam("get", {"at"}, Pos1 \cup {L + 2}, {0}, {"mut", "const"})
+   \/ Fam("get", {"idx"}, IdxLegal, {0}, {"mut", "const"})
+   \/ Fam("get", {"front", "back"}, {0}, {0}, {"mut", "const"})
+   \/ Fam("iter", {"fwd", "fwd_post", "rev", "rev_post", "dist", "rdist"}, {0}, {0}, {"mut", "const", "c"})
+   \/ Fam("iter", {"deref", "rderef", "back_from"}, IdxLegal \ {Len(s)}, {0}, {"mut", "const", "c"})
+   \/ \E tk \in {"diff"}, p \in 0..(Len(s) - 1), c \in 0..(Len(s) - 1) : Do(A("iter", tk, "const", p, c, <<>>, 0, 0, 0))
+   \/ \E p \in 0..(Len(s) - 1), c \in 0..(Len(s) - 1) : Do(A("iter", "index", "mut", p, c, <<>>, 0, 0, 0))
 
 MCInit == Init /\ act = [op |-> "Init"] /\ dead = FALSE
-MCNext == /\ ~dead
-          /\ \E a \in Calls :
-                /\ act' = a /\ wf' = TRUE
-                /\ \/ Call(a) /\ dead' = FALSE
-                   \/ WildArgs /\ WildCall(a, <<>>, <<>>) /\ dead' = TRUE
+MCNext == ~dead /\ AllCalls
 MCSpec == MCInit /\ [][MCNext]_mcvars
 \* states that differ only in the second object or in the ghost are the same node: every FixedString overload
 \* sets o from its src argument first, no other call reads o
 View == <<L, s, dead>>
 St(c, x, d) == [L |-> c, s |-> x, d |-> d]
 EdgeOut == PrintT("EDGE " \o ToJson([i |-> (act.op = "Init"), pre |-> St(L, s, dead),
-                                     a |-> [act' EXCEPT !.src = @] @@ [L |-> L, dom |-> ~dead'], post |-> St(L', s', dead')]))
+                                     a |-> act' @@ [L |-> L, dom |-> ~dead'], post |-> St(L', s', dead')]))
 
 \* ---- the two formulations checked against each other (evaluated once, over all small texts) ----
 T3 == UNION {[1..k -> Char] : k \in 0..3}
